@@ -17,8 +17,14 @@ def prepare(backends=("f64", "dec"), bins=("x_core",), profile="dev"):
         nb = [x for x in bins if x in NOSTD_BINS]
         if nb and profile == "dev":
             # the same executors with the library's "std" feature off (a fraction of the workloads runs on them)
-            for k, v in fw.build_bins(b, nb, nostd=True).items():
-                paths[k + "_nostd"] = v
+            try:
+                for k, v in fw.build_bins(b, nb, nostd=True).items():
+                    paths[k + "_nostd"] = v
+            except fw.Inconclusive as e:
+                # The library no longer builds without "std" although the std build above succeeded (a C19 matter).
+                # The std lane still observes this property: a violation seen there is reported; without one the
+                # verdict stays INCONCLUSIVE (never "held"), because the no_std lane could not be observed.
+                fw.DEFERRED_INCONCLUSIVE.append("no_std lane not observed: " + str(e))
         env[b] = {"bins": paths, "reg": registry.load(b, paths) if "x_core" in paths else None}
     return env
 
